@@ -27,7 +27,7 @@ class Timeout(Exception):
 def _alarm(*a):
     raise Timeout()
 
-def limited(fn, secs=1.0):
+def limited(fn, secs=0.25):
     old = signal.signal(signal.SIGALRM, _alarm)
     signal.setitimer(signal.ITIMER_REAL, secs)
     try:
@@ -307,7 +307,7 @@ def same_occurrences(a, b, n=12):
 def oracle(ctx):
     from dateutil import rrule as R, tz
     rng = ctx.subrng("oracle")
-    n = ctx.budget(700, 25000)
+    n = ctx.budget(500, 25000)
     shown = 0
     for i in range(n):
         freq, ds, kw = gen_kwargs(rng)
